@@ -531,6 +531,42 @@ def gen_meta(rng, tier):
     return out
 
 
+def gen_metalayout(rng, tier):
+    """Metadata of many sizes on files WITH samples, each run in both layouts (rel = layout, C08/C01): the size of
+    moov (titles of 0..300 bytes, multi-byte text, dates inside and beyond four-digit years, languages) must not
+    disturb the offsets of the fast-start layout."""
+    out = []
+    F = {'bytes': True, 'timing': True, 'tree': True, 'raw': False}
+    metas = [{}]
+    for n in ([0, 1, 2, 7, 8, 15, 16, 17, 100, 255, 256, 300] if tier == 'quick' else range(0, 301)):
+        metas.append({'title': [0x41 + (k % 26) for k in range(n)]})
+    for t in ('é', '€uro ☃ snow', '𝄞 clef 🎬', 'ÿ' * 150):
+        metas.append({'title': list(t.encode())})
+    for days in (0, 1, 19723, 2932896, 2932897, 2932897 + 366, 3000000, 19675925, 19675926, 36525000, 100000000, 1000000000):
+        metas.append({'ct_days': days, 'ct_sod': 86399 if days % 2 else 1})
+        metas.append({'ct_days': days, 'ct_sod': 43200, 'title': list(b'dated'), 'lang': list(b'zho')})
+    for lang in ('eng', 'zzz', 'und', 'aaa'):
+        metas.append({'lang': list(lang.encode())})
+    k = 0
+    for m in metas:
+        for vc, ac in (('h264', 'aac'), ('h265', 'none'), ('av1', 'opus'), ('vp9', 'aac')):
+            k += 1
+            if tier == 'quick' and (k % 2) and 'ct_days' not in m:
+                continue
+            cfg = base_cfg(vc, ac)
+            cfg['facets'] = F
+            cfg['meta'] = m
+            calls = [{'op': 'wv', 'pts': fin(0), 'data': video_frame(rng, vc, True, 4), 'key': True}]
+            if ac != 'none':
+                calls.append({'op': 'wa', 'pts': fin(0), 'data': audio_frame(rng, ac, 5)})
+            calls.append({'op': 'wv', 'pts': fin(9000), 'data': video_frame(rng, vc, False, 3), 'key': False})
+            if ac != 'none':
+                calls.append({'op': 'wa', 'pts': fin(6400), 'data': audio_frame(rng, ac, 7)})
+            calls.append({'op': 'fin', 'how': 'in_place_stats'})
+            out.append({'cfg': cfg, 'calls': calls})
+    return out
+
+
 def varuint(rng, length):
     out = []
     for i in range(length):
@@ -631,6 +667,39 @@ def gen_nallist(rng, tier):
                          {'op': 'wv', 'pts': fin(9000), 'data': other, 'key': True},
                          {'op': 'fin', 'how': 'in_place_stats'}]
                 out.append({'cfg': cfg, 'calls': calls})
+    # H.265 needs three parameter sets before a key frame is accepted: lists of four / five parameter sets (both
+    # variants of each kind, every order) containing all three kinds, i.e. repeated kinds before the triple is
+    # complete, then the slice; the FIRST of each kind is the configuration
+    psn = ['VPSa', 'VPSb', 'SPSa', 'SPSb', 'PPSa', 'PPSb']
+    k = 0
+    for n in ((4,) if tier == 'quick' else (4, 5)):
+        for combo in itertools.product(psn, repeat=n):
+            if {c[0] for c in combo} != {'V', 'S', 'P'}:
+                continue
+            k += 1
+            if n == 5 and k % 4:
+                continue
+            d = []
+            for i, u in enumerate(combo):
+                d += (SC4 if (i + k) % 2 == 0 else SC3) + units['h265'][u]
+            d += SC3 + units['h265']['IDR']
+            cfg = base_cfg('h265', 'none')
+            cfg['facets'] = F
+            out.append({'cfg': cfg, 'calls': [{'op': 'wv', 'pts': fin(0), 'data': d, 'key': True}, {'op': 'fin', 'how': 'in_place_stats'}]})
+    # H.264: the same with two kinds, lists of three / four parameter sets
+    psn4 = ['SPSa', 'SPSb', 'PPSa', 'PPSb']
+    for n in (3, 4):
+        for combo in itertools.product(psn4, repeat=n):
+            if {c[0] for c in combo} != {'S', 'P'}:
+                continue
+            k += 1
+            d = []
+            for i, u in enumerate(combo):
+                d += (SC4 if (i + k) % 2 == 0 else SC3) + units['h264'][u]
+            d += SC3 + units['h264']['IDR']
+            cfg = base_cfg('h264', 'none')
+            cfg['facets'] = F
+            out.append({'cfg': cfg, 'calls': [{'op': 'wv', 'pts': fin(0), 'data': d, 'key': True}, {'op': 'fin', 'how': 'in_place_stats'}]})
     return out
 
 
@@ -816,7 +885,7 @@ def gen_bound(rng, tier):
                             out.append(None)
                             continue
                         cfg = base_cfg(vc, ac, mode='tick', unit=wideint(U) if U >= (1 << 31) else U, w32=w32, i32=i32, i32n=i32n, w32dur=w32)
-                        cfg['facets'] = {'bytes': True, 'timing': True, 'tree': False, 'raw': False}
+                        cfg['facets'] = {'bytes': True, 'timing': True, 'tree': True, 'raw': True}
                         calls = []
                         ok = True
                         for k, d in enumerate(dp):
@@ -844,7 +913,7 @@ def gen_boundfrag(rng, tier):
             for cp in cts_patterns:
                 cfg = {'vc': 'h264', 'w': 640, 'h': 480, 'timescale': 90000, 'fragms': 2000, 'via': 'config', 'unit': wideint(U) if U >= (1 << 31) else U,
                        'unit1': False, 'judge_config': False, 'w32': w32, 'i32': i32, 'i32n': i32n, 'sps': SPS_A, 'pps': PPS_A,
-                       'facets': {'bytes': True, 'timing': True, 'tree': False, 'raw': False}}
+                       'facets': {'bytes': True, 'timing': True, 'tree': True, 'raw': True}}
                 calls = []
                 for k, d in enumerate(dp):
                     c = cp[k % len(cp)]
@@ -1060,6 +1129,8 @@ def generate(kind, n, seed, tier):
         return gen_fraginit(rng, tier)
     if kind == 'meta':
         return gen_meta(rng, tier)
+    if kind == 'metalayout':
+        return gen_metalayout(rng, tier)
     if kind == 'vp9hdr':
         return gen_vp9hdr(rng, tier)
     if kind == 'nallist':
